@@ -1094,21 +1094,51 @@ Example C17_example_info_compressed :
 Proof. split; [vm_compute; discriminate|]. split; vm_compute; reflexivity. Qed.
 
 (* ====================================================================================== *)
-(* Tie A, level 1 (work package linearT): `mlar extract` translated from mlar/src/main.rs (gen/Src3x.v) against the
-   command models of CliExtract.v: the whole-archive form IS Pool.extract_linear_pool on the pieces the walk delivers
-   to the names create_file accepted; the per-name form IS CliExtract.extract_listed_loop on the names the matcher
-   selects (premises: the io::copy of an ArchiveFile is Cli.io_copy; no panic below get_file).  One difference
-   with cmd_extract_linear_pool on archives that re-use an id: C17_tie_extract_linear_reused_id_differs. *)
-From MLA Require SrcTie3Cli SrcTie3CliDiff.
+(* Tie A, level 1 (work packages linearT, fixcli): `mlar extract` translated from mlar/src/main.rs (gen/Src3x.v) against the
+   command models of CliExtract.v.  Whole-archive form: the translated body IS CliExtract.extract_linear_body (the body of
+   cmd_extract_linear_pool: pre-pass, walk with the names create_file accepted as `export`, pieces through the pool) — an
+   equality of (file system, exit status), no premise; from the archive bytes: C17_tie_cmd_extract_linear_pool_src.
+   Per-name form: the translated body, with io::copy = std's loop over the TRANSLATED BlocksToFileReader::read
+   (SrcTie3CliCopy.g_copy), IS CliExtract.extract_listed_loop on the names the matcher selects, a panic below get_file
+   included; the one premise is CliExtract.copies_fuelled (no copy of the MODEL ends with out-of-fuel), which holds of every
+   archive made by `create` (C17_tie_extract_selected_fuelled_at).  The difference linearT had found (re-used ids) was a
+   defect of the model and is repaired: C17_tie_extract_linear_reused_id_agrees, ..._old_model_refuted. *)
+From MLA Require SrcTie3Cli SrcTie3CliCopy SrcTie3CliDiff.
 Theorem C17_tie_extract_linear_sim : ltac:(let t := type of SrcTie3Cli.extract_linear_sim in exact t).
 Proof. exact SrcTie3Cli.extract_linear_sim. Qed.
 Theorem C17_tie_extract_linear_sim_none_skipped : ltac:(let t := type of SrcTie3Cli.extract_linear_sim_none_skipped in exact t).
 Proof. exact SrcTie3Cli.extract_linear_sim_none_skipped. Qed.
+Theorem C17_tie_extract_selected_sim : ltac:(let t := type of SrcTie3Cli.extract_selected_sim in exact t).
+Proof. exact SrcTie3Cli.extract_selected_sim. Qed.
 Theorem C17_tie_extract_selected_body_sim : ltac:(let t := type of SrcTie3Cli.extract_selected_body_sim in exact t).
 Proof. exact SrcTie3Cli.extract_selected_body_sim. Qed.
-Theorem C17_tie_extract_linear_reused_id_differs : ltac:(let t := type of SrcTie3CliDiff.extract_linear_reused_id_differs in exact t).
-Proof. exact SrcTie3CliDiff.extract_linear_reused_id_differs. Qed.
+Theorem C17_tie_cmd_extract_linear_pool_src : ltac:(let t := type of SrcTie3Cli.cmd_extract_linear_pool_src in exact t).
+Proof. exact SrcTie3Cli.cmd_extract_linear_pool_src. Qed.
+Theorem C17_tie_cmd_extract_selected_src : ltac:(let t := type of SrcTie3Cli.cmd_extract_selected_src in exact t).
+Proof. exact SrcTie3Cli.cmd_extract_selected_src. Qed.
+(* io::copy of an ArchiveFile through the translated `read` delivers what Cli.io_copy delivers *)
+Theorem C17_tie_io_copy_sim : ltac:(let t := type of SrcTie3CliCopy.io_copy_sim in exact t).
+Proof. exact SrcTie3CliCopy.io_copy_sim. Qed.
+Theorem C17_tie_g_copy_sim : ltac:(let t := type of SrcTie3CliCopy.g_copy_sim in exact t).
+Proof. exact SrcTie3CliCopy.g_copy_sim. Qed.
+(* the remaining premise holds of every archive made by `create` (fuel above the longest file), any selection *)
+Theorem C17_tie_extract_selected_fuelled_at : ltac:(let t := type of CliExtractProofs.extract_selected_fuelled_at in exact t).
+Proof. exact CliExtractProofs.extract_selected_fuelled_at. Qed.
+Theorem C17_tie_extract_linear_reused_id_agrees : ltac:(let t := type of SrcTie3CliDiff.extract_linear_reused_id_agrees in exact t).
+Proof. exact SrcTie3CliDiff.extract_linear_reused_id_agrees. Qed.
+Theorem C17_tie_extract_linear_reused_id_old_model_refuted : ltac:(let t := type of SrcTie3CliDiff.extract_linear_reused_id_old_model_refuted in exact t).
+Proof. exact SrcTie3CliDiff.extract_linear_reused_id_old_model_refuted. Qed.
+Theorem C17_tie_extract_selected_panic_unwinds : ltac:(let t := type of SrcTie3CliDiff.extract_selected_panic_unwinds in exact t).
+Proof. exact SrcTie3CliDiff.extract_selected_panic_unwinds. Qed.
 Print Assumptions C17_tie_extract_linear_sim.
 Print Assumptions C17_tie_extract_linear_sim_none_skipped.
+Print Assumptions C17_tie_extract_selected_sim.
 Print Assumptions C17_tie_extract_selected_body_sim.
-Print Assumptions C17_tie_extract_linear_reused_id_differs.
+Print Assumptions C17_tie_cmd_extract_linear_pool_src.
+Print Assumptions C17_tie_cmd_extract_selected_src.
+Print Assumptions C17_tie_io_copy_sim.
+Print Assumptions C17_tie_g_copy_sim.
+Print Assumptions C17_tie_extract_selected_fuelled_at.
+Print Assumptions C17_tie_extract_linear_reused_id_agrees.
+Print Assumptions C17_tie_extract_linear_reused_id_old_model_refuted.
+Print Assumptions C17_tie_extract_selected_panic_unwinds.
